@@ -1035,6 +1035,11 @@ public:
     }
 
     if (!is_tracked_region(rhs_rgn, rhs_rgn_info.type_val())) {
+      // The contents of rhs are unknown: the old contents of lhs must
+      // not survive the copy.
+      if (boost::optional<ghost_variables_t> lhs_gvars = get_gvars(lhs_rgn)) {
+        (*lhs_gvars).forget(m_base_dom);
+      }
       return;
     }
 
